@@ -16,6 +16,8 @@ THEOREMS = [
     "JanetModel.Props.C15.unary_minus_differs",
     "JanetModel.Props.C15.rows_agree_all_or_unary_special",
     "JanetModel.Props.C15.fixed_rows_consistent",
+    "JanetModel.Props.C15.nil_fast_paths_consistent",
+    "JanetModel.Props.C15.nil_condition_value",
     "JanetModel.Props.C15.movopt_tables_sound_partial",
     "JanetModel.Props.C15.movopt_getindex",
     "JanetModel.Bytecode.VMPasses.remove_noops_retarget",
